@@ -47,7 +47,7 @@ def harmonic(scf, freq=2, **kwargs):
         Harmonic potential in real-space.
     """
     atoms = scf.atoms
-    dr = xp.linalg.norm(atoms.r - xp.sum(atoms.a, axis=1) / 2, axis=1)
+    dr = xp.linalg.norm(atoms.r - xp.sum(atoms.a, axis=0) / 2, axis=1)
     Vharm = 0.5 * freq**2 * dr**2
     return atoms.Jdag(atoms.O(atoms.J(Vharm)))
 
